@@ -145,6 +145,11 @@ func (p *process) Start() {
 }
 
 func (p *process) tryRestart(v any) {
+	// A panic raised while the process is being cleaned up (the receiver's handler of
+	// the final Stopped) must not bring the stopped process back to life.
+	if p.terminated {
+		return
+	}
 	// InternalError does not take the maximum restarts into account.
 	// For now, InternalError is getting triggered when we are dialing
 	// a remote node. By doing this, we can keep dialing until it comes
